@@ -15,7 +15,9 @@ def thresholds(terms, var):
         for u in subterms(t):
             if u[0] == 'call' and u[1] == 'bitlen' and var in subterms(u[2]):
                 # comparisons on the bit length change truth only at powers of two of the operand
-                dd, c = to_lin(u[2])
+                arg = u[2]
+                while arg[0] == 'trunc': arg = arg[1]      # measured at the type's width: the wrap points are powers of two as well
+                dd, c = to_lin(arg)
                 if set(dd.keys()) == {var} and dd[var] == 1:
                     for k in range(0, 65): out.update([(1 << k) - c - 1, (1 << k) - c, (1 << k) - c + 1])
             if u[0] in ('eq', 'lt', 'le'):
